@@ -1041,3 +1041,126 @@ func checkEmptyPartOnlyForExistingEntry(w *World, r *Run, rule string) {
 		r.Check(good, rule, "(*outboxPartStore)."+strings.TrimPrefix(name, "outboxPartStore.")+": empty part only for an entry that still exists", fn.Pos(), "entryExists checked before firstChunk == nil", "a missing first chunk is taken for an empty part before the entry's existence was checked: when the worker flushed the entry between the two queries the part reads as empty with a clean EOF and the download silently lacks that part")
 	}
 }
+
+// checkSettingsLayersKeepLists: the trusted proxy list reaches the authorizer through the
+// settings layers (command line, then environment). A layer that leaves a list unset must not
+// erase the list an earlier layer configured — an erased list means "trust every proxy".
+func checkSettingsLayersKeepLists(w *World, r *Run) {
+	rule := r.Rule("an-unset-layer-does-not-erase-a-configured-list", "F1",
+		"in Settings.merge every setUnexportedField that is not guarded by !isNilish(value) is reached only for field kinds other than Pointer and Slice", 1)
+	fn := w.SSAFunc("internal/settings", "Settings.merge")
+	if fn == nil {
+		r.Anchor(rule, "settings.Settings.merge")
+		return
+	}
+	n, good := 0, true
+	allInstrs(fn, false, func(_ *ssa.Function, ins ssa.Instruction) {
+		c, ok := ins.(*ssa.Call)
+		if !ok || !isCallNamed(c, "setUnexportedField") {
+			return
+		}
+		n++
+		guarded := false
+		notPtr, notSlice := false, false
+		for _, f := range factsAt(c.Block()) {
+			if cc, ok := f.Val.(*ssa.Call); ok && isCallNamed(cc, "isNilish") && f.Kind == IsFalse {
+				guarded = true
+			}
+			if f.Kind == NeConst && f.Const != nil {
+				if k, isC := intConst(f.Const); isC {
+					if k == 22 {
+						notPtr = true
+					}
+					if k == 23 {
+						notSlice = true
+					}
+				}
+			}
+		}
+		if !guarded && !(notPtr && notSlice) {
+			good = false
+		}
+	})
+	r.Check(good && n > 0, rule, "Settings.merge overwrites pointer and slice settings only with set values", fn.Pos(), "nil-guarded for Pointer and Slice kinds", "a nil slice of a later settings layer overwrites the earlier layer's value: -trustedProxyCIDRs given on the command line is erased when PITHOS_TRUSTED_PROXY_CIDRS is unset, and with forwarded headers trusted an empty list means every peer may set the client IP and scheme")
+}
+
+// checkHeaderEOFIsTruncation: a stored encrypted part always starts with its header; when the
+// stream ends before the header is complete that is a truncated part, and must not surface as
+// io.EOF (which every reader takes for a regular end of data).
+func checkHeaderEOFIsTruncation(w *World, r *Run) {
+	rule := r.Rule("end-of-stream-inside-the-part-header-is-an-error", "F8",
+		"in readPartHeaderAndDEK no error result of io.ReadFull is returned as it is on a path where it may equal io.EOF: each such return is dominated by err != io.EOF or returns another error", 2)
+	fn := w.SSAFunc("internal/storage/metadatapart/partstore/middlewares/encryption/tink", "TinkEncryptionPartStoreMiddleware.readPartHeaderAndDEK")
+	if fn == nil {
+		r.Anchor(rule, "tink.TinkEncryptionPartStoreMiddleware.readPartHeaderAndDEK")
+		return
+	}
+	ei := errorResultIndex(fn)
+	n := 0
+	allInstrs(fn, false, func(_ *ssa.Function, ins ssa.Instruction) {
+		c, ok := ins.(*ssa.Call)
+		if !ok || !isCallNamed(c, "ReadFull") {
+			return
+		}
+		n++
+		var errv ssa.Value
+		for _, ref := range *c.Referrers() {
+			if e, ok := ref.(*ssa.Extract); ok && e.Index == 1 {
+				errv = e
+			}
+		}
+		bad := token.NoPos
+		for _, ret := range returnsOf(fn) {
+			rv := retResult(ret, ei)
+			if rv == nil || !canReach(c, ret) {
+				continue
+			}
+			// the raw error (possibly through a phi with ErrUnexpectedEOF on the EOF edge)
+			raw := false
+			if sameValue(rv, errv) {
+				raw = true
+			}
+			if phi, ok := rv.(*ssa.Phi); ok {
+				for i, e := range phi.Edges {
+					if !sameValue(e, errv) {
+						continue
+					}
+					// this edge carries the raw error: it must have established err != io.EOF
+					pred := phi.Block().Preds[i]
+					ne := false
+					for _, f := range append(factsAt(pred), lastEdgeFacts(pred, phi.Block())...) {
+						if f.Kind == NeConst && f.Other != nil && (globalErrLoaded(f.Other, "EOF") || globalErrLoaded(f.Val, "EOF")) {
+							ne = true
+						}
+					}
+					if !ne {
+						raw = true
+					}
+				}
+			}
+			if !raw {
+				continue
+			}
+			ne := false
+			for _, f := range factsAt(ret.Block()) {
+				if f.Kind == NeConst && f.Other != nil && (globalErrLoaded(f.Other, "EOF") || globalErrLoaded(f.Val, "EOF")) {
+					ne = true
+				}
+			}
+			if !ne && sameValue(rv, errv) {
+				bad = ret.Pos()
+			}
+			if _, isPhi := rv.(*ssa.Phi); isPhi && raw {
+				bad = ret.Pos()
+			}
+		}
+		pos := c.Pos()
+		if bad != token.NoPos {
+			pos = bad
+		}
+		r.Check(bad == token.NoPos, rule, "readPartHeaderAndDEK: header read #"+strconv.Itoa(n), pos, "io.EOF mapped to io.ErrUnexpectedEOF", "the io.EOF of a header read is returned unchanged: a stored part cut to nothing (or to its 4 length bytes) reads back as an empty plaintext without any error")
+	})
+	if n == 0 {
+		r.Bad(rule, "readPartHeaderAndDEK: header reads", fn.Pos(), "no io.ReadFull found")
+	}
+}
